@@ -5,7 +5,7 @@ CONSTANTS
   Creds = {"right", "wrongPw", "otherUser"}
   BindRes = {"ra"}
   Kinds = {"message", "presence", "iq"}
-  Froms = {"absent", "own", "ownBare", "victim", "other"}
+  Froms = {"absent", "own", "ownBare", "victim", "other", "ownOtherRes", "ownSibling", "ownCase", "ownSlash", "ownPrefix", "ownDomain", "ownLookalike"}
   Tos = {"victimBare", "victimFull", "domain", "absent"}
   Stanzas <- CoreStanzas
   MaxPending = 1
